@@ -179,6 +179,12 @@ Theorem C18_float_model_hav : forall x y c1 c2 dx dy d1 d2 d3 d4 d5 d6 d7 d8 d9,
 Proof. exact hav_backward_stable. Qed.
 Print Assumptions C18_float_model_hav.
 
+Theorem C18_float_model_is_generated_formula : forall dcrad1 dcrad2 deldec delra,
+  hav_model (deldec / 2) (delra / 2) (cos dcrad1) (cos dcrad2) 0 0 0 0 0 0 0 0 0 0 0
+  = gcirc_sindis2 dcrad1 dcrad2 deldec delra.
+Proof. exact hav_model_is_generated. Qed.
+Print Assumptions C18_float_model_is_generated_formula.
+
 Theorem C18_float_model_gcirc : forall x y c1 c2 dx dy d1 d2 d3 d4 d5 d6 d7 d8 d9 d10 d11,
   Rabs x <= PI / 2 -> Rabs y <= PI / 2 -> 0 <= c1 -> 0 <= c2 -> hav_exact x y c1 c2 <= 1/2 ->
   Rabs dx <= eps -> Rabs dy <= eps -> Rabs d1 <= eps -> Rabs d2 <= eps -> Rabs d3 <= eps -> Rabs d4 <= eps ->
